@@ -334,3 +334,5 @@ CHECKS['C17']["level_text"] = 'Proved (Qed, closed) for EVERY receiver history w
 CHECKS['C08']["level_text"] = "Proved for every block list, window and reachable state: an uninterrupted transfer emits each block's encoding symbols exactly once, in order, ends without panic, and carries the close flag on its last packet only (iff last transfer); a forced read closes and silences the encoder; an empty object is the lone close packet. The full statement C08_transfer_full is proved (Proofs/C08Full.v): for every accepted configuration, content, FEC oracle and window, the packets of an uninterrupted transfer satisfy P_C08_transfer - every source symbol exactly once with the E-byte slice of the content at its RFC 5052 offset (last symbol short or padded as the scheme says), SBN/K headers of its block, at most the configured repair symbols per block, close flag on the last packet only. The same predicate is evaluated on the packets of the implementation on every run. Known finding D30 (Raptor symbol cutting by the raptor-code crate) is recorded."
 CHECKS['C02']["level_text"] = 'Proved (Qed, closed) at object level for the No-Code scheme without content encoding (C02_nocode_recoverable_delivers, Proofs/C02Full.v): a fresh object receiver with the FDT entry attached, fed ANY list of genuine packets in any order with any duplication such that every source symbol of every block occurs at least once, ends Completed with the writer having received open, writes concatenating to the content, one complete - under explicit premises each shown necessary by an Example (object within max_size_allocated, at most 4097 blocks ahead, a close-object flag only once the reception is recoverable, non-empty object, writer accepts). Also: a block reassembles iff all its source symbols are stored, duplicates never change what is stored, closed objects ignore packets. The other schemes, content encodings and the session level are evaluated on every run (P_C02_object over every subset/duplication of real sessions), not proved - partial. For an empty object the premise is read as: its packet arrives.'
 CHECKS['C03']["level_text"] = 'Proved for every receiver history: no writer is both completed and failed (C03_never_complete_and_failed_history, from the C09 invariant). Proved at object level for No-Code without content encoding (C03_nocode_complete_implies_exact): for ANY list of genuine packets (any order, subset, multiplicity, close flags), whatever write() and the MD5 check answer, the bytes written are always a prefix of the content and a writer is completed only if it was written exactly the content. Other schemes, content encodings and altered payloads (guarded by MD5, named assumption) are evaluated on every run over permutations, sub-multisets, duplications and payload alterations - partial.'
+CHECKS['C13']["level_text"] = 'Proved (Qed, closed) for EVERY operation history of the sender model with strictly ascending queue keys (a BTreeMap in the code) and no add_object under the TOI of an object still queued or in a slot (what the TOI allocator guarantees; both premises shown necessary by refuting Examples): whenever a read returns an object packet of priority p no queue of smaller key was ready in the state before the read (C13_strict_priority, via an invariant established by init_st and preserved by every op); the start/stop events of every read of the model satisfy the event predicate evaluated on the implementation - FIFO admission within a queue and at most max(1, multiplex_files) objects of a queue in transmission (C13_events_read, C13_events_reachable); first queue with a packet wins; slots per queue constant; FIFO admission of get_next_file_transfer; window refill order (interleave). The unrestricted statement is refuted (C13_strict_priority_full_refuted: TOI reuse confuses the TOI-to-priority lookup of the predicate, not the scheduling). Correspondence: the Gallina model agrees with the implementation op by op on every generated scenario; P_C13_priority and P_C13_events are evaluated on the packets and events of the implementation on every run.'
+CHECKS['C14']["level_text"] = 'Proved (Qed, closed) for EVERY operation history of the sender model with pairwise distinct TOIs of accepted adds and non-decreasing read instants (both premises shown necessary by refuting Examples; the unrestricted statement is refuted): every object packet is emitted at or after the start time of its object, at or after transfer start + i x tick for the i-th packet of a paced transfer, and a carousel transfer begins only after the configured delay/interval - outside the recorded class D23 (C14_timing). Building blocks: eligibility implies start time reached and carousel gap elapsed; every emitted packet passed the pacing gate; starting a transfer is total. With a clock that goes back, a packet can precede the start time (nothing re-checks it after the first packet): callers must pass non-decreasing instants. Known finding D23 (carousel with max_transfer_count >= 2). Correspondence: the Gallina model agrees with the implementation op by op on every generated scenario; P_C14_* are evaluated on the implementation on every run.'
